@@ -41,7 +41,7 @@ Proof.
   eapply okP_pre; [exact P2|].
   apply (okP_bind [] [] [] w2 (mc w2 t) _ (fun _ w' => cur w' = None)).
   - eapply okP_extra; [|apply (HM w2 t []); [apply (po_ok _ _ _ _ _ _ P2)|apply (po_inv _ _ _ _ _ _ P2 J0)|apply chain_nil|exact I]].
-    intros a w' X. cbn beta in X. rewrite X. exact Hc2.
+    intros a w' X. cbn beta in X. rewrite (proj1 X). exact Hc2.
   - intros o w4 s4 P4 Hc4. unfold update_require_dependency.
     change (cur (emit w4 (ERequireEnd t c (oc_stamp (OC c) o) o))) with (cur w4). rewrite Hc4. cbn [bind].
     split; [|exact Hc4]. eexists. apply post_emit; [apply (po_ok _ _ _ _ _ _ P4)|exact I].
